@@ -22,8 +22,11 @@ from mc.ref import mtypes as T
 ID = 'C17'
 LEVEL = 'exploration'
 RULE = ('every reference-well-typed program PUSH;i1..ik (k<=3) over PUSH/PAIR n/UNPAIR n/GET n/UPDATE n/CAR/CDR/DUP/SWAP/COMPARE/'
-        'PACK/UNPACK/LEFT/RIGHT/NONE/NIL/EMPTY_MAP/LAMBDA/CAST x every valid annotation assignment (each type node one of '
-        'none, %f, :t, %f :t; %f only on components of pair/or, as Tezos requires) within the bound; the annotated run is compared '
+        'PACK/UNPACK/LEFT/RIGHT/NONE/NIL/EMPTY_MAP/LAMBDA/CAST/SOME/MAP/ITER/EXEC/APPLY/CONS x every valid annotation assignment (each '
+        'type node one of none, %f, :t, %f :t; %f only on components of pair/or, as Tezos requires; in assignments of two or more nodes '
+        'the later node also under the OTHER names %g, :u, %g :u, so that two types meeting in one type check - list element and consed '
+        'item, lambda parameter and argument, the two operands of COMPARE, old and new component of UPDATE n - carry the same or '
+        'different names of the same kind = renaming) within the bound; the annotated run is compared '
         'with the bare run of the same program.  evaluation = one program run (bare or annotated); non-trivial = distinct '
         '(program, assignment) in which at least one annotated node is a pair node (the nodes whose annotations the comb '
         'traversal could look at); outcome classes are per last instruction of the program')
@@ -31,11 +34,13 @@ BOUND = {
     'quick': 'initial PUSH of: nat, right combs of 2-4 nat leaves, left-nested pair, pair of pairs, option/or/list of a 3-comb, packed 3- and '
              '4-combs; type arguments: 3-comb for LEFT/RIGHT/NONE/NIL/EMPTY_MAP/LAMBDA, 3-/4-comb for UNPACK, the current top type for CAST; '
              'all programs of <=3 instructions after the PUSH with at most one type-carrying instruction among them; programs of <=2 '
-             'instructions: every assignment with <=2 annotated nodes (every kind combination); programs of 3: every single-node assignment',
+             'instructions: every assignment with <=2 annotated nodes (every kind combination, second node under the same and under different '
+             'names); programs of 3: every single-node assignment',
     'thorough': 'as quick plus 5-combs (initial, packed, UNPACK), option of a 4-comb, type arguments {nat, 3-comb, 4-comb}, two type-carrying '
                 'instructions in programs of <=2; programs of <=2 instructions: every assignment with <=2 annotated nodes and every subset of '
-                'the non-leaf nodes (pair/or/option/list/map/lambda) under 4 kind patterns (%f, :t, %f :t, alternating); programs of 3: every '
-                'single node, every pair of non-leaf nodes (every kind combination), every subset of the non-leaf nodes of the initial PUSH type',
+                'the non-leaf nodes (pair/or/option/list/map/lambda) under 5 patterns (%f, :t, %f :t, alternating kinds, alternating names '
+                '%f :t / %g :u); programs of 3: every single node, every pair of non-leaf nodes (every kind combination, same and different '
+                'names), every subset of the non-leaf nodes of the initial PUSH type',
 }
 ASSUMPTIONS = ['field annotations are only legal on the components of pair/or types (Tezos rejects them elsewhere, and so does '
                'pytezos for option/list/map/lambda arguments): other placements are not re-annotations of a valid program',
@@ -45,7 +50,11 @@ LEVEL_TEXT = ('exploration: exhaustive over a small instruction family and all a
               'the implementation itself, so it decides "annotations are ignored" for these instructions, not their absolute correctness')
 
 NAT, BYTES = ('nat',), ('bytes',)
-KINDS = {'f': ['%f'], 't': [':t'], 'ft': ['%f', ':t']}
+KINDS = {'f': ['%f'], 't': [':t'], 'ft': ['%f', ':t'],
+         # the same three kinds under OTHER names: used on the second node of a two-node assignment (and alternately in the
+         # thorough subsets), so that two types that meet in one type check carry different names of the same kind (renaming)
+         'g': ['%g'], 'u': [':u'], 'gu': ['%g', ':u']}
+RENAMED = {'f': 'g', 't': 'u', 'ft': 'gu'}
 
 
 def comb(k):
@@ -263,6 +272,12 @@ def kinds_for(node):
     return ['f', 't', 'ft'] if node[3] else ['t']
 
 
+def kinds_second(node):
+    """Kinds of the second node of a two-node assignment: same names as the first node, then the renamed ones."""
+    ks = kinds_for(node)
+    return ks + [RENAMED[k] for k in ks]
+
+
 def assignments(prog, tier):
     """Yield lists of (node index, kind): the re-annotations explored for this program in this tier."""
     nodes = prog_nodes(prog)
@@ -278,7 +293,7 @@ def assignments(prog, tier):
     pool = range(n) if length <= 2 else [i for i in range(n) if not nodes[i][5]]
     for i, j in itertools.combinations(pool, 2):
         for ki in kinds_for(nodes[i]):
-            for kj in kinds_for(nodes[j]):
+            for kj in kinds_second(nodes[j]):
                 seen.add(((i, ki), (j, kj)))
                 yield [(i, ki), (j, kj)]
     if tier == 'thorough':
@@ -287,12 +302,17 @@ def assignments(prog, tier):
             inner = [i for i in inner if nodes[i][1] == 0]  # the initial PUSH only
         for r in range(2, len(inner) + 1):
             for sub in itertools.combinations(inner, r):
-                for pat in ('f', 't', 'ft', 'alt'):
+                for pat in ('f', 't', 'ft', 'alt', 'ren'):
                     a = []
                     for pos, i in enumerate(sub):
-                        k = pat if pat != 'alt' else ('f' if pos % 2 == 0 else 't')
-                        if k not in kinds_for(nodes[i]):
-                            k = 't'
+                        if pat == 'ren':  # same kinds, names alternate: %f :t / %g :u / %f :t ..
+                            k = 'ft' if pos % 2 == 0 else 'gu'
+                            if not nodes[i][3]:
+                                k = 't' if pos % 2 == 0 else 'u'
+                        else:
+                            k = pat if pat != 'alt' else ('f' if pos % 2 == 0 else 't')
+                            if k not in kinds_for(nodes[i]):
+                                k = 't'
                         a.append((i, k))
                     if tuple(a) not in seen:
                         seen.add(tuple(a))
@@ -413,7 +433,7 @@ def compare_runs(bare, ann, classes, rb=None, ra=None):
 
 
 # ---------------------------------------------------------------- driver interface
-NSPLIT = {'quick': 8, 'thorough': 16}
+NSPLIT = {'quick': 16, 'thorough': 16}   # 16 parts per initial PUSH: lane k of the runner gets part k of every initial PUSH
 
 
 def shards(tier, seed):
